@@ -516,7 +516,7 @@ fn setup(ci: u64, rng: &mut Rng) -> Option<Setup> {
     // median which depends on filler timestamps: fix the fillers' timestamps deterministically.
     tg.cfg.ts_step_max = 1; // +1ms steps: median fully determined below
     let mut later: Vec<Cand> = vec![];
-    let mut extra_cells: Vec<((H, u32), CellRec)> = (0..3).filter_map(|_| next_cell()).collect();
+    let mut extra_cells: Vec<((H, u32), CellRec)> = (0..6).filter_map(|_| next_cell()).collect();
     if let Some((sk, sc)) = since_cell.clone() {
         let b_c = sc.block_number;
         let e_c = EpochNumberWithFraction::from_full_value(sc.block_epoch);
@@ -590,6 +590,35 @@ fn setup(ci: u64, rng: &mut Rng) -> Option<Setup> {
                 let tx = builder::build_tx(&gi, &ins, &[builder::OutSpec { capacity: cap + cap_of(&c2) - FEE, lock: lock7.clone(), type_: None, data: vec![0x52, valid as u8, first_zero as u8, ci as u8] }], &[], &[], None);
                 later.push(Cand { name, tx, valid, pool: Some(valid), pre: vec![] });
             }
+        }
+    }
+    // the same relative since value on two inputs created at different heights: the value has to
+    // be evaluated per input (against the block that created that input), wherever the input stands
+    if let Some((sk, sc)) = since_cell.clone() {
+        let b_c = sc.block_number;
+        let op = out_point(&sk);
+        for (name, old_first, early, valid) in [
+            ("valid.since_same_relative_value_on_two_inputs_both_elapsed", true, 0u64, true),
+            ("since.same_relative_value_on_two_inputs_younger_second_one_early", true, 1, false),
+            ("since.same_relative_value_on_two_inputs_younger_first_one_early", false, 1, false),
+        ] {
+            let Some((k2, c2)) = extra_cells.pop() else { break };
+            let b2 = c2.block_number;
+            if b2 == b_c {
+                continue;
+            }
+            let younger = b_c.max(b2);
+            if n <= younger {
+                continue;
+            }
+            let since = since_rel_block(n - younger + early);
+            let a_in = (op.clone(), since);
+            let b_in = (out_point(&k2), since);
+            // which of the two is the older cell
+            let (old_in, young_in) = if b_c < b2 { (a_in, b_in) } else { (b_in, a_in) };
+            let ins = if old_first { vec![old_in, young_in] } else { vec![young_in, old_in] };
+            let tx = builder::build_tx(&gi, &ins, &[builder::OutSpec { capacity: cap_of(&sc) + cap_of(&c2) - FEE, lock: lock7.clone(), type_: None, data: vec![0x53, valid as u8, old_first as u8, ci as u8] }], &[], &[], None);
+            later.push(Cand { name, tx, valid, pool: Some(valid), pre: vec![] });
         }
     }
     // cellbase maturity: cellbase of block b is mature at n iff epoch(n) >= epoch(b) + 1 epoch
@@ -697,6 +726,12 @@ fn boot_synced_seq(s: &Setup, order: &[H], assume_valid: Option<Vec<ckb_types::H
 }
 
 fn boot_synced(s: &Setup, order: &[H], store: Option<StoreConfig>) -> Option<Node> {
+    boot_synced_ex(s, order, store).ok()
+}
+
+/// Err((reason, definitive)): definitive = every delivered block has been answered and the node
+/// is nevertheless not at the context tip (a logical outcome, not a time-out of the harness).
+fn boot_synced_ex(s: &Setup, order: &[H], store: Option<StoreConfig>) -> Result<Node, (String, bool)> {
     let node = Node::boot(
         &s.gi,
         &NodeCfg {
@@ -707,20 +742,38 @@ fn boot_synced(s: &Setup, order: &[H], store: Option<StoreConfig>) -> Option<Nod
     );
     // asynchronous: an orphan's verification callback only fires once its parent has arrived
     let judged = Arc::new(std::sync::atomic::AtomicUsize::new(0));
+    let first_err: Arc<std::sync::Mutex<Option<String>>> = Default::default();
     for x in order {
         let j = Arc::clone(&judged);
+        let fe = Arc::clone(&first_err);
+        let tag = format!("{}#{}", hx(x), s.tg.rc.get(x).number);
         node.chain().asynchronous_process_remote_block(ckb_chain::RemoteBlock {
             block: Arc::clone(&s.tg.rc.get(x).block),
-            verify_callback: Box::new(move |_| {
+            verify_callback: Box::new(move |r| {
+                if let Err(e) = r {
+                    fe.lock().unwrap().get_or_insert_with(|| format!("block {tag} refused: {e}"));
+                }
                 j.fetch_add(1, std::sync::atomic::Ordering::SeqCst);
             }),
         });
     }
     // every delivered block must have been judged before the context is used
     let t0 = Instant::now();
+    let mut all_judged_since: Option<Instant> = None;
     while judged.load(std::sync::atomic::Ordering::SeqCst) < order.len() || h(&node.tip_hash()) != s.tip {
+        let done = judged.load(std::sync::atomic::Ordering::SeqCst) >= order.len();
+        if done && all_judged_since.is_none() {
+            all_judged_since = Some(Instant::now());
+        }
+        // every block answered and the tip has not moved to the context for a while: final
+        if let Some(t) = all_judged_since {
+            if t.elapsed() > Duration::from_secs(3) {
+                let why = first_err.lock().unwrap().clone().unwrap_or_else(|| "no block was refused".into());
+                return Err((format!("every delivered block was answered, tip is {} instead of {}; {}", hx(&h(&node.tip_hash())), hx(&s.tip), why), true));
+            }
+        }
         if t0.elapsed() > Duration::from_secs(60) {
-            return None;
+            return Err((format!("time-out: {} of {} blocks answered", judged.load(std::sync::atomic::Ordering::SeqCst), order.len()), false));
         }
         std::thread::sleep(Duration::from_millis(2));
     }
@@ -733,11 +786,11 @@ fn boot_synced(s: &Setup, order: &[H], store: Option<StoreConfig>) -> Option<Nod
             }
         }
         if t0.elapsed() > Duration::from_secs(20) {
-            return None;
+            return Err(("time-out: the pool did not follow the tip".into(), false));
         }
         std::thread::sleep(Duration::from_millis(1));
     }
-    Some(node)
+    Ok(node)
 }
 
 /// Wait (bounded) until the pool's snapshot is at `tip`.
@@ -1081,7 +1134,7 @@ pub fn run(args: &Args) -> i32 {
             c04.count("assume_valid_histories");
         }
         let cache_cfg = if ci % 2 == 0 { 0 } else { 1 };
-        let cold = boot_synced(
+        let cold = boot_synced_ex(
             &s,
             &direct,
             Some(StoreConfig {
@@ -1094,6 +1147,25 @@ pub fn run(args: &Args) -> i32 {
                 freezer_enable: false,
             }),
         );
+        // the same blocks in the same order brought the node with default caches to the context
+        let cold = match cold {
+            Ok(n) => Some(n),
+            Err((why, definitive)) => {
+                let panics = hooks::take_panics();
+                c14.eval();
+                if definitive || !panics.is_empty() {
+                    let p = panics.first().map(|p| format!("; thread '{}' panicked at {}: {}", p.thread, p.location, p.message)).unwrap_or_default();
+                    c14.violation(
+                        &format!("node_with_cache_size_{cache_cfg}_does_not_reach_the_context"),
+                        format!("the blocks that brought the node with default store caches to the context tip do not bring a node whose store caches have size {cache_cfg} there: {why}{p}"),
+                        json!({"context": ci, "cache_size": cache_cfg}),
+                    );
+                } else {
+                    c14.count("cold_nodes_not_booted_in_time");
+                }
+                None
+            }
+        };
         let mut vec1: BTreeMap<&'static str, (Option<bool>, bool)> = BTreeMap::new();
         let mut ext1s: BTreeMap<&'static str, Option<String>> = BTreeMap::new();
         for c in &s.cands {
